@@ -40,7 +40,14 @@ Clause(e) ==
              got  == SeqSet(e.lanelets)
          IN IF want \ got # {} THEN "C19.Lanelets/missing"
             ELSE IF got \ want # {} \/ e.stray > 0 THEN "C19.Lanelets/extra"
+            ELSE IF e.defaults = 1 /\ PartsMissing(want, e.parts) # {} THEN "C19.Lanelets/part-missing"   \* fill / bound / arrow
             ELSE ""
+    [] e.op = "lights" ->
+         IF \E k \in SeqSet(e.lights) : ~ValidLight(k) THEN "driver/light"
+         ELSE IF LightsMissing(e) # {} THEN "C19.Lights/missing"               \* a light without an artist
+         ELSE IF LightsExtra(e) # {} THEN "C19.Lights/extra"
+         ELSE IF LightsWrong(e) # {} THEN "C19.Lights/state"                   \* the artist does not show the state at time_begin
+         ELSE ""
     [] e.op = "draw" ->
          IF e.part = "total" /\ (e.arch \notin Archetypes \/ e.win \notin Windows) THEN "driver/archetype"
          ELSE IF e.res # "ok" THEN "C19.Total/draw" ELSE ""
